@@ -554,6 +554,11 @@ func (vx *Vaxis) render() {
 		// when the cursor was moved in between
 		written string
 	)
+	if vx.refresh && !vx.cursorNext.visible && !vx.cursorLast.visible {
+		// A full repaint does not rely on what the terminal shows:
+		// it may show the cursor although we never did
+		_, _ = vx.tw.WriteString(decrst(cursorVisibility))
+	}
 outerLast:
 	// Delete any placements we don't have this round
 	for _, p1 := range vx.graphicsLast {
